@@ -24,6 +24,10 @@ def scenario(n, path, rstack, drops, again):
                 # the line loses the first k frames the host sends after the reset handshake: ASH retransmits (1.6 s, 3.2 s, ...),
                 # well inside the command timeout for k <= 3 - bring-up completes all the same
                 w.ncp.drop_rx_after_reset = int(rstack[4:])
+            if isinstance(rstack, str) and rstack.startswith("ncplose"):
+                # the line loses the first k frames the NCP sends after its RSTACK (the answer to the first version query): the host
+                # repeats its request, the NCP retransmits the answer marked reTx - bring-up completes all the same
+                w.ncp.drop_tx_after_reset = int(rstack[7:])
             if rstack == "split":
                 # a socket NCP that is still starting (deaf to the RST): its spontaneous start-up RSTACK is late and arrives in two
                 # TCP segments, the first just before the host gives up waiting and sends its RST, the second just after
@@ -230,6 +234,8 @@ def cases(ctx):
         if n in (4, 7, 8, 13, 14, 15) or ctx.tier == "thorough":
             for k in (1, 2, 3):
                 cs.append((n, "/dev/ttyUSB0", f"lose{k}", (0, 0), False))
+                if k <= 2:
+                    cs.append((n, "/dev/ttyUSB0", f"ncplose{k}", (0, 0), k == 1 and n % 2 == 0))
                 cs.append((n, "socket://127.0.0.1:6638", f"lose{k}", (0, 0), False))
             cs.append((n, "socket://127.0.0.1:6638", "split", (0, 0), n % 2 == 0))
     for n in versions:
